@@ -255,6 +255,9 @@ func parseAndOr(getSnippet func() (*snippet, error), remainingSnippets func() in
 			}
 			expectingMore = false
 		case ")":
+			if len(conditions) == 0 && !rootCondition {
+				return nil, fmt.Errorf("empty group at position %d", firstSnippet.globalPosition)
+			}
 			if len(conditions) == 1 {
 				return conditions[0], nil
 			}
